@@ -76,7 +76,7 @@ Section Recv.
     | Some id, Some b, Some e =>
       if valid_fec id then
         let maxn := match n_maxn x with Some v => v | None => b end in
-        if maxn <? b then OPanic                       (* u64 subtraction overflow *)
+        if maxn <? b then ONone                        (* checked_sub: no usable OTI (fix D6; was a u64 subtraction overflow) *)
         else OSome (mk_oti id ((match n_inst x with Some v => v | None => 0 end) mod 65536) (b mod 4294967296)
                            (e mod 65536) ((maxn - b) mod 4294967296) (scheme_from id (n_ssi x)))
       else ONone
